@@ -19,6 +19,9 @@ CHECKS = {
  "C09": dict(technique="TLA+ spec (LocustStore.tla, file-system micro-steps, Crash anywhere incl. during recovery) model-checked with TLC; crash images at every primitive file-system effect of TLC-emitted workloads reopened and compared with the spec's admissible contents",
              text="TLC checks Durable/ContentOK/NoFailure with create/write/rename micro-steps and up to two crashes anywhere (also inside recovery), rejects the historical temp-file mutant, and (thorough) checks RecoveryTerminates under fairness. The binding photographs the real directory after every file-system effect (plus torn temp files), reopens each image under a deadline, compares the content with {acknowledged, acknowledged + in-flight whole}, flushes, crashes the recovery again, and ingests into the recovered database.",
              note="loss of un-fsynced bytes is not simulated (directory copies see written data); partition-file temp steps are not modelled in the spec (unreferenced until the catalogue is stored)", ref="5 C09, 4.4"),
+ "C10": dict(technique="TLA+ spec (LocustStore.tla) model-checked over all interleavings of ingest / flush+compaction / query / evict; query and second ingestion placed at every named sync point of the real code (schedule replay); recorded multi-threaded traces validated against the spec with TLC",
+             text="TLC explores every interleaving at action granularity (ContentOK also half-way through an ingestion, SnapshotIsPrefix, NoFailure), reproduces the one known finding and rejects the evict-before-persist mutant. Binding B3 parks the flush / ingest / query thread at each of 21 sync points and runs the other operation exactly there (330 placements: 5 query kinds, with/without restart and second ingestion), checking the answer is a whole-request prefix, that the ingestion lock blocks exactly where the spec says and that everything completes. Binding B2 records randomised multi-threaded runs and validates every event, in particular every snapshot composition, against the spec.",
+             note="windows without a sync label are reached only by the randomised driver; model bounds 1 table / 2 requests / 2 flushes; KF3 is a recorded known finding", ref="5 C10, 4.3, 4.4"),
 }
 PENDING = ["C01","C02","C03","C04","C05","C06","C09","C10","C11","C12","C14","C15","C16","C17"]
 def main():
